@@ -352,7 +352,7 @@ def r6(ctx, rep):
     ok = False
     for n in walk(a["body"]):
         if n.get("k") == "mcall" and n["m"] == "gen" and show(n["r"]).endswith("table_name"):
-            lp, tests, form = _g.regen_loop(par_a, n)
+            lp, tests, form = _g.regen_loop(par_a, n, fn=a)
             # (while form: the condition also covers the missing name; loop form: only a `Some(name)` that is free breaks out)
             ok = ok or (form == "while" and bool(tests) and "is_none()" in show(lp["c"])) or (form == "loop" and bool(tests))
     rep.check(ok, "cte-names", "CTE names must be regenerated until set and not clashing", file=a["file"], line=a["l"], fn=a["path"])
@@ -474,7 +474,15 @@ def r9(ctx, rep):
                 n_assign += 1
                 rep.ok(f"accumulate:{var}")
     if n_assign == 0:
-        rep.bad(f"accumulate:{var}", f"`{var}` is never updated from the translated CTEs", file=f["file"], line=f["l"], fn=f["path"])
+        # iterator form: `let <var> = <translated CTEs>.iter().any(|(_, rec)| *rec)` - true as soon as one CTE is recursive
+        import alpha
+        init = alpha.Inliner(f)._init_of(accs[0], var)
+        anyc = [x for x in walk(init)] if init is not None else []
+        is_any = init is not None and init.get("k") == "mcall" and init["m"] == "any" and "translate_cte" in alpha.Inliner(f).show(init["r"])
+        if is_any:
+            rep.ok(f"accumulate:{var}", {"form": "any"})
+        else:
+            rep.bad(f"accumulate:{var}", f"`{var}` is never updated from the translated CTEs", file=f["file"], line=f["l"], fn=f["path"])
     # the keyword is withheld from the dialects that lack it: some conjunct is a capability whose value is false for them (the values themselves are C07.R8 rows)
     defaults, mat = dialect_matrix(syn)
     lacking = ["MsSqlDialect"]
@@ -871,9 +879,16 @@ def r22(ctx, rep):
             txt = A.show(n["c"])
             # closures bound to locals are inlined by name: look at their bodies too
             extra = ""
+            ctext = show(n["c"], maxdepth=12)
             for loc in walk(body):
-                if loc.get("k") == "local" and loc.get("init") is not None and loc["init"].get("k") == "closure" and loc["pat"].get("k") == "p_ident" and loc["pat"]["n"] in show(n["c"], maxdepth=12):
+                if loc.get("k") == "local" and loc.get("init") is not None and loc["init"].get("k") == "closure" and loc["pat"].get("k") == "p_ident" and loc["pat"]["n"] in ctext:
                     extra += " " + show(loc["init"], maxdepth=12)
+                if loc.get("k") == "item_fn" and loc.get("name") and loc["name"] + "(" in ctext and "body" in loc:
+                    extra += " " + show_stmts(loc["body"], maxdepth=12)
+            # a private helper of the same file called in the condition
+            for hf in syn.fns_in_file(f["file"].split("/src/")[-1]):
+                if "body" in hf and hf is not f and re.search(r"\b" + re.escape(hf["name"]) + r"\(", ctext):
+                    extra += " " + show_stmts(hf["body"], maxdepth=12)
             if re.search(r"\bflatten\b|ExprKind::All", txt + extra):
                 guards_found.append(n)
     first_zip_line = min(z["l"] for z in zips if not any(_g._contains(g["c"], z) for g in guards_found)) if [z for z in zips if not any(_g._contains(g["c"], z) for g in guards_found)] else None
